@@ -435,6 +435,31 @@ theorem wrap_error_skips_inner (env : Env) (s : Stage) (rest : List Stage) (w e 
   simp only [runStagesE, hpres, hmid, runMid, hnot, herr, Outcome.statusOr, Bool.false_eq_true, ↓reduceIte]
   exact ⟨trivial, posts_keep_status env s.posts e hposts⟩
 
+/-- **C06 (h′) — an error in the entry closure** (the synthetic `wrap_noop` stage builds the request-scoped
+    values shared by several later stages): no middleware and no handler runs at all, the client sees the
+    error handler's response. -/
+theorem entry_error_stops_route (env : Env) (chain : List Mw) (h e : Nat)
+    (hnot : rootCalled (runClosure env .noop).evs = false)
+    (herr : (runClosure env .noop).outcome = .err e) :
+    runRoute env chain h = ⟨expand [] (runClosure env .noop).evs, e, (runClosure env .noop).stuck⟩ := by
+  simp [runRoute, hnot, herr, Outcome.statusOr]
+
+/-- what a closure contributes to the trace when its root is not reached: constructor invocations,
+    failures, error handlers and observers only — no middleware, no handler event. -/
+theorem expand_nil_no_pipeline_events : ∀ (evs : List Ev), ∀ p ∈ expand [] evs,
+    (∃ i, p = .ctor i) ∨ (∃ i, p = .failCtor i) ∨ (∃ i, p = .failHandler i) ∨ (∃ i, p = .failMw i) ∨
+    (∃ k, p = .eh k) ∨ (∃ o, p = .observer o)
+  | [], p, hp => by simp [expand] at hp
+  | ev :: rest, p, hp => by
+    simp only [expand, List.mem_append] at hp
+    rcases hp with hp | hp
+    · split at hp
+      · simp at hp
+      · cases ev with
+        | call n k => cases k <;> simp_all [evOf]
+        | fail n k => cases k <;> simp_all [evOf]
+    · exact expand_nil_no_pipeline_events rest p hp
+
 /-- when does a closure not reach its root? whenever a fallible node the root is computed from failed:
     the root (middleware / handler) is then not invoked, so, for a wrapping middleware, `next` is never
     awaited. -/
